@@ -7,8 +7,9 @@ Section WithMethods.
 Variable mof : N -> N.
 Variable qof : N -> option qargs.
 Variable pq : N -> qargs.
+Variable pay : N -> payload.
 
-Lemma run_app s evs evs' : run mof qof pq s (evs ++ evs') = run mof qof pq (run mof qof pq s evs) evs'.
+Lemma run_app s evs evs' : run mof qof pq pay s (evs ++ evs') = run mof qof pq pay (run mof qof pq pay s evs) evs'.
 Proof. unfold run. apply fold_left_app. Qed.
 
 Lemma wire_reqs_app w w' : wire_reqs (w ++ w') = wire_reqs w ++ wire_reqs w'.
@@ -48,7 +49,7 @@ Proof.
   rewrite !map_app, H1. cbn [map]. now rewrite <- !app_assoc.
 Qed.
 
-Lemma inv_pump all s : Inv all s -> Inv all (pump mof qof pq s).
+Lemma inv_pump all s : Inv all s -> Inv all (pump mof qof pq pay s).
 Proof.
   intros HI. unfold pump.
   destruct (waited s) eqn:Hw; [exact HI|].
@@ -76,7 +77,7 @@ Proof.
   unfold inflight in *. rewrite Hw in *. rewrite !app_nil_r in H3.
   unfold Inv, deliver, inflight. cbn [queue waited latest responses redirects sent wire].
   assert (E : origin {| e_status := st; e_tag := latest s; e_errored := err; e_history := redirects s;
-                        e_target := rq_target s; e_targets := rtargets s |}
+                        e_target := rq_target s; e_targets := rtargets s; e_pay := rq_pay s |}
               = match redirects s with h :: _ => snd h | [] => latest s end).
   { unfold origin. cbn [e_history e_tag]. reflexivity. }
   split4.
@@ -122,22 +123,22 @@ Proof.
 Qed.
 
 Lemma inv_step all s e :
-  Inv all s -> Inv (all ++ match e with Enq t => [t] | Pass _ => [] end) (step mof qof pq s e).
+  Inv all s -> Inv (all ++ match e with Enq t => [t] | Pass _ => [] end) (step mof qof pq pay s e).
 Proof.
   intros HI. destruct e as [t|o]; cbn [step].
   - now apply inv_enq.
   - rewrite app_nil_r. pose proof (inv_pump all s HI) as HP.
     destruct o as [r|]; [|assumption].
-    destruct (waited (pump mof qof pq s)) eqn:Hw; [|assumption].
-    destruct (sent (pump mof qof pq s)) eqn:Hs; [|assumption].
-    cbn [andb]. destruct (readable (pump mof qof pq s) r); [now apply inv_complete | assumption].
+    destruct (waited (pump mof qof pq pay s)) eqn:Hw; [|assumption].
+    destruct (sent (pump mof qof pq pay s)) eqn:Hs; [|assumption].
+    cbn [andb]. destruct (readable (pump mof qof pq pay s) r); [now apply inv_complete | assumption].
 Qed.
 
-Lemma inv_run : forall evs all s, Inv all s -> Inv (all ++ enqs evs) (run mof qof pq s evs).
+Lemma inv_run : forall evs all s, Inv all s -> Inv (all ++ enqs evs) (run mof qof pq pay s evs).
 Proof.
   induction evs as [|e evs IH]; intros all s HI; cbn [run fold_left enqs].
   - now rewrite app_nil_r.
-  - apply (inv_step all s e) in HI. apply IH in HI. fold (run mof qof pq (step mof qof pq s e) evs).
+  - apply (inv_step all s e) in HI. apply IH in HI. fold (run mof qof pq pay (step mof qof pq pay s e) evs).
     destruct e; cbn [enqs]; [now rewrite <- app_assoc in HI | now rewrite app_nil_r in HI].
 Qed.
 
@@ -159,7 +160,7 @@ Qed.
 (* FIFO, one entry per request, at most one in flight; requests reach the wire
    in queue order and at most one of them is unanswered. *)
 Theorem fifo sec rd m evs :
-  let s := run mof qof pq (init_m sec rd m) evs in
+  let s := run mof qof pq pay (init_m sec rd m) evs in
   map Some (enqs evs) = map origin (responses s) ++ inflight s ++ map Some (queue s)
   /\ (length (inflight s) <= 1)%nat
   /\ (exists rest, enqs evs = wire_reqs (wire s) ++ rest)
@@ -182,7 +183,7 @@ Qed.
 Definition InvS (s : cstate) : Prop :=
   https s = true /\ Forall (fun w => w_https w = true) (wire s).
 
-Lemma invS_pump s : InvS s -> InvS (pump mof qof pq s).
+Lemma invS_pump s : InvS s -> InvS (pump mof qof pq pay s).
 Proof.
   intros [H1 H2]. unfold pump. destruct (waited s); [now split|].
   destruct (queue s); [now split|]. split; cbn [https wire]; [assumption|].
@@ -206,19 +207,19 @@ Proof.
     constructor; [reflexivity | constructor].
 Qed.
 
-Lemma invS_step s e : InvS s -> InvS (step mof qof pq s e).
+Lemma invS_step s e : InvS s -> InvS (step mof qof pq pay s e).
 Proof.
   intros H. destruct e as [t|o]; cbn [step]; [exact H|].
   apply invS_pump in H. destruct o as [r|]; [|assumption].
-  destruct (waited (pump mof qof pq s) && sent (pump mof qof pq s) && readable (pump mof qof pq s) r); [now apply invS_complete | assumption].
+  destruct (waited (pump mof qof pq pay s) && sent (pump mof qof pq pay s) && readable (pump mof qof pq pay s) r); [now apply invS_complete | assumption].
 Qed.
 
 Theorem https_kept rd m evs :
-  let s := run mof qof pq (init_m true rd m) evs in
+  let s := run mof qof pq pay (init_m true rd m) evs in
   https s = true /\ Forall (fun w => w_https w = true) (wire s).
 Proof.
   cbn zeta. unfold run.
-  assert (G : forall evs s, InvS s -> InvS (fold_left (step mof qof pq) evs s)).
+  assert (G : forall evs s, InvS s -> InvS (fold_left (step mof qof pq pay) evs s)).
   { induction evs0 as [|e evs0 IH]; intros s H; [assumption|]. cbn [fold_left]. apply IH. now apply invS_step. }
   apply G. split; [reflexivity | constructor].
 Qed.
@@ -279,25 +280,25 @@ Proof.
     + unfold InvH. cbn [redirects latest responses]. auto.
 Qed.
 
-Lemma invH_step all s e : Inv all s -> InvH s -> InvH (step mof qof pq s e).
+Lemma invH_step all s e : Inv all s -> InvH s -> InvH (step mof qof pq pay s e).
 Proof.
   intros HI H. destruct e as [t|o]; cbn [step].
   - exact H.
-  - assert (HP : InvH (pump mof qof pq s)).
+  - assert (HP : InvH (pump mof qof pq pay s)).
     { unfold pump. destruct (waited s) eqn:Hw; [exact H|]. destruct (queue s); [exact H|].
       destruct HI as (_ & H2 & _). specialize (H2 Hw). destruct H as (A & B & C & D).
       unfold InvH. cbn [redirects latest responses]. rewrite H2.
       split; [constructor|]. split; [exact I|]. split; [congruence | assumption]. }
     destruct o as [r|]; [|assumption].
-    destruct (waited (pump mof qof pq s) && sent (pump mof qof pq s) && readable (pump mof qof pq s) r); [now apply invH_complete | assumption].
+    destruct (waited (pump mof qof pq pay s) && sent (pump mof qof pq pay s) && readable (pump mof qof pq pay s) r); [now apply invH_complete | assumption].
 Qed.
 
 Theorem history_attached sec rd m evs :
-  Forall good_entry (responses (run mof qof pq (init_m sec rd m) evs)).
+  Forall good_entry (responses (run mof qof pq pay (init_m sec rd m) evs)).
 Proof.
-  assert (G : forall evs all s, Inv all s -> InvH s -> InvH (run mof qof pq s evs)).
+  assert (G : forall evs all s, Inv all s -> InvH s -> InvH (run mof qof pq pay s evs)).
   { induction evs0 as [|e evs0 IH]; intros all s HI H; [assumption|]. cbn [run fold_left].
-    fold (run mof qof pq (step mof qof pq s e) evs0). eapply IH; [eapply inv_step; eassumption | eapply invH_step; eassumption]. }
+    fold (run mof qof pq pay (step mof qof pq pay s e) evs0). eapply IH; [eapply inv_step; eassumption | eapply invH_step; eassumption]. }
   destruct (G evs [] (init_m sec rd m) (inv_init sec rd m)) as (_ & _ & _ & D); [|exact D].
   unfold InvH, init_m. cbn. split; [constructor|]. split; [exact I|]. split; [congruence | constructor].
 Qed.
@@ -334,7 +335,8 @@ Qed.
 (* a delivered entry names the request it answers and the request of every hop *)
 Lemma deliver_targets s st err c :
   exists e, responses (deliver s st err c) = responses s ++ [e]
-    /\ e_target e = rq_target s /\ e_targets e = rtargets s /\ e_history e = redirects s.
+    /\ e_target e = rq_target s /\ e_targets e = rtargets s /\ e_history e = redirects s
+    /\ e_pay e = rq_pay s.
 Proof. eexists. split; [reflexivity|]. cbn. auto. Qed.
 
 (* every original request goes on the wire with exactly the target it was queued with: the qargs its
@@ -369,10 +371,10 @@ Proof.
     + constructor; [|constructor]. rewrite map_app. apply in_or_app. right. now left.
 Qed.
 
-Lemma invQ_step s e : InvQ s -> InvQ (step mof qof pq s e).
+Lemma invQ_step s e : InvQ s -> InvQ (step mof qof pq pay s e).
 Proof.
   intros H. destruct e as [t|o]; cbn [step]; [now apply invQ_enq|].
-  assert (HP : InvQ (pump mof qof pq s)).
+  assert (HP : InvQ (pump mof qof pq pay s)).
   { unfold pump. destruct (waited s); [exact H|]. destruct (queue s) as [|t q] eqn:Hq; [exact H|].
     destruct H as (A & B & C). rewrite Hq in C. inversion C as [|? ? Ct Cq]; subst.
     unfold InvQ. cbn [wire qlog queue]. destruct (cut s); [now repeat split|].
@@ -380,8 +382,8 @@ Proof.
     - unfold wire_ok, on_wire, sent_q. cbn [w_item w_q]. reflexivity.
     - cbn [on_wire w_item]. exact Ct. }
   destruct o as [r|]; [|assumption].
-  destruct (waited (pump mof qof pq s) && sent (pump mof qof pq s) && readable (pump mof qof pq s) r); [|assumption].
-  set (p := pump mof qof pq s) in *. unfold complete.
+  destruct (waited (pump mof qof pq pay s) && sent (pump mof qof pq pay s) && readable (pump mof qof pq pay s) r); [|assumption].
+  set (p := pump mof qof pq pay s) in *. unfold complete.
   assert (D : forall st e c, InvQ (deliver p st e c)) by (intros; exact HP).
   destruct (redirectable p && is_redirect (rp_status r)); [|apply D].
   destruct (rp_loc r) as [l|]; [|apply D].
@@ -395,13 +397,13 @@ Proof.
 Qed.
 
 Theorem wire_queries sec rd m evs :
-  let s := run mof qof pq (init_m sec rd m) evs in
+  let s := run mof qof pq pay (init_m sec rd m) evs in
   Forall (wire_ok (qlog s)) (wire s).
 Proof.
   cbn zeta.
-  assert (G : forall evs s, InvQ s -> InvQ (run mof qof pq s evs)).
+  assert (G : forall evs s, InvQ s -> InvQ (run mof qof pq pay s evs)).
   { induction evs0 as [|e evs0 IH]; intros s H; [assumption|]. cbn [run fold_left].
-    fold (run mof qof pq (step mof qof pq s e) evs0). apply IH. now apply invQ_step. }
+    fold (run mof qof pq pay (step mof qof pq pay s e) evs0). apply IH. now apply invQ_step. }
   apply G. unfold InvQ, init_m. cbn. repeat split; constructor.
 Qed.
 
@@ -411,15 +413,15 @@ Lemma enq_records s t :
   qlog (enq qof s t) = qlog s ++ [(t, match qof t with Some q => q | None => snd (rq_target s) end)].
 Proof. reflexivity. Qed.
 
-Lemma qlog_grows s e : exists more, qlog (step mof qof pq s e) = qlog s ++ more.
+Lemma qlog_grows s e : exists more, qlog (step mof qof pq pay s e) = qlog s ++ more.
 Proof.
   destruct e as [t|o]; cbn [step].
   - eexists. apply enq_records.
   - exists []. rewrite app_nil_r.
-    assert (P : qlog (pump mof qof pq s) = qlog s).
+    assert (P : qlog (pump mof qof pq pay s) = qlog s).
     { unfold pump. destruct (waited s); [reflexivity|]. destruct (queue s); reflexivity. }
     destruct o as [r|]; [|exact P].
-    destruct (waited (pump mof qof pq s) && sent (pump mof qof pq s) && readable (pump mof qof pq s) r); [|exact P].
+    destruct (waited (pump mof qof pq pay s) && sent (pump mof qof pq pay s) && readable (pump mof qof pq pay s) r); [|exact P].
     rewrite <- P. unfold complete.
     destruct (redirectable _ && is_redirect _); [|reflexivity].
     destruct (rp_loc r); [|reflexivity].
@@ -434,20 +436,20 @@ Definition InvM (s : cstate) : Prop :=
   waited s = true ->
   rs_method s = rq_method s /\ (forall t, inflight s = [Some t] -> rq_method s = mof t).
 
-Lemma invM_step all s e : Inv all s -> InvM s -> InvM (step mof qof pq s e).
+Lemma invM_step all s e : Inv all s -> InvM s -> InvM (step mof qof pq pay s e).
 Proof.
   intros HI HM. destruct e as [t|o]; cbn [step].
   - exact HM.
-  - assert (HP : InvM (pump mof qof pq s)).
+  - assert (HP : InvM (pump mof qof pq pay s)).
     { unfold pump. destruct (waited s) eqn:Hw; [exact HM|]. destruct (queue s) as [|t q]; [exact HM|].
       destruct HI as (_ & H2 & _). specialize (H2 Hw).
       unfold InvM, inflight. cbn [waited redirects latest rs_method rq_method]. rewrite H2.
       intros _. split; [reflexivity|]. intros t' E. now inversion E. }
     destruct o as [r|]; [|assumption].
-    destruct (waited (pump mof qof pq s)) eqn:Hw; [|assumption]. cbn [andb].
-    destruct (sent (pump mof qof pq s) && readable (pump mof qof pq s) r); [|assumption].
+    destruct (waited (pump mof qof pq pay s)) eqn:Hw; [|assumption]. cbn [andb].
+    destruct (sent (pump mof qof pq pay s) && readable (pump mof qof pq pay s) r); [|assumption].
     specialize (HP Hw). destruct HP as [E1 E2]. unfold inflight in E2. rewrite Hw in E2.
-    set (p := pump mof qof pq s) in *. unfold complete.
+    set (p := pump mof qof pq pay s) in *. unfold complete.
     assert (D : forall st e c, InvM (deliver p st e c)) by (intros st e c X; discriminate X).
     destruct (redirectable p && is_redirect (rp_status r)); [|apply D].
     destruct (rp_loc r) as [l|]; [|apply D].
@@ -460,25 +462,75 @@ Proof.
 Qed.
 
 Theorem method_tracks sec rd m evs :
-  let s := run mof qof pq (init_m sec rd m) evs in
+  let s := run mof qof pq pay (init_m sec rd m) evs in
   waited s = true ->
   rs_method s = rq_method s /\ (forall t, inflight s = [Some t] -> rq_method s = mof t).
 Proof.
   cbn zeta.
-  assert (G : forall evs all s, Inv all s -> InvM s -> InvM (run mof qof pq s evs)).
+  assert (G : forall evs all s, Inv all s -> InvM s -> InvM (run mof qof pq pay s evs)).
   { induction evs0 as [|e evs0 IH]; intros all s HI H; [assumption|]. cbn [run fold_left].
-    fold (run mof qof pq (step mof qof pq s e) evs0). eapply IH; [eapply inv_step; eassumption | eapply invM_step; eassumption]. }
+    fold (run mof qof pq pay (step mof qof pq pay s e) evs0). eapply IH; [eapply inv_step; eassumption | eapply invM_step; eassumption]. }
   apply (G evs [] (init_m sec rd m) (inv_init sec rd m)). intros X. discriminate X.
 Qed.
 
 (* hence a consumed reply is always readable: no reply is ever left half read or
    over-read because of the method, for every schedule *)
 Corollary always_readable sec rd m evs r :
-  let s := run mof qof pq (init_m sec rd m) evs in
+  let s := run mof qof pq pay (init_m sec rd m) evs in
   waited s = true -> readable s r = true.
 Proof.
   cbn zeta. intros Hw. destruct (method_tracks sec rd m evs Hw) as [E _].
   unfold readable. rewrite E. apply Bool.eqb_reflx.
+Qed.
+
+(* ------------------------------------------------------------------ *)
+(* Payloads: what a request carries on the wire (body bytes, Content-Type) is its
+   own payload - nothing of an earlier request's data=/fargs=/body= - and the
+   requester holds exactly the in-flight request's payload. *)
+Definition InvP (s : cstate) : Prop :=
+  Forall (fun w => match w_item w with
+                   | WReq t => w_pay w = wire_pay mof pay t
+                   | WRedir _ => w_pay w = nopay end) (wire s)
+  /\ (waited s = true -> redirects s = [] -> forall t, latest s = Some t -> rq_pay s = pay t).
+
+Lemma invP_step s e : InvP s -> InvP (step mof qof pq pay s e).
+Proof.
+  intros H. destruct e as [t|o]; cbn [step]; [exact H|].
+  assert (HP : InvP (pump mof qof pq pay s)).
+  { unfold pump. destruct (waited s); [exact H|]. destruct (queue s) as [|t q]; [exact H|].
+    destruct H as [A B]. unfold InvP. cbn [wire waited redirects latest rq_pay]. split.
+    - destruct (cut s); [exact A|]. apply Forall_app. split; [exact A|]. constructor; [reflexivity|constructor].
+    - intros _ _ t' E. now inversion E. }
+  destruct o as [r|]; [|assumption].
+  destruct (waited (pump mof qof pq pay s) && sent (pump mof qof pq pay s) && readable (pump mof qof pq pay s) r); [|assumption].
+  set (p := pump mof qof pq pay s) in *. destruct HP as [A B]. unfold complete.
+  assert (D : forall st e c, InvP (deliver p st e c)).
+  { intros. split; [exact A|]. cbn [waited]. discriminate. }
+  destruct (redirectable p && is_redirect (rp_status r)); [|apply D].
+  destruct (rp_loc r) as [l|]; [|apply D].
+  match goal with |- context [if ?c then _ else _] => destruct c end.
+  - unfold InvP. cbn [wire waited redirects latest rq_pay]. split.
+    + destruct (cut p || rp_close r); [exact A|]. apply Forall_app. split; [exact A|].
+      constructor; [reflexivity|constructor].
+    + intros _ _ t' E. discriminate E.
+  - match goal with |- context [if ?c then _ else _] => destruct c end; [apply D|].
+    unfold InvP. cbn [wire waited redirects latest rq_pay]. split.
+    + apply Forall_app. split; [exact A|]. constructor; [reflexivity|constructor].
+    + intros _ _ t' E. discriminate E.
+Qed.
+
+Theorem wire_payload sec rd m evs :
+  let s := run mof qof pq pay (init_m sec rd m) evs in
+  Forall (fun w => match w_item w with
+                   | WReq t => w_pay w = wire_pay mof pay t
+                   | WRedir _ => w_pay w = nopay end) (wire s)
+  /\ (waited s = true -> redirects s = [] -> forall t, latest s = Some t -> rq_pay s = pay t).
+Proof.
+  cbn zeta.
+  assert (G : forall evs s, InvP s -> InvP (run mof qof pq pay s evs)).
+  { induction evs0 as [|e evs0 IH]; intros s H; [assumption|]. cbn [run fold_left].
+    fold (run mof qof pq pay (step mof qof pq pay s e) evs0). apply IH. now apply invP_step. }
+  apply G. unfold InvP, init_m. cbn. split; [constructor | discriminate].
 Qed.
 
 End WithMethods.
